@@ -161,6 +161,12 @@ def random_strings(rng, n):
     out = []
     for _ in range(n):
         r = rng.random()
+        if r < 0.04:
+            # very long fractional parts (mostly zeros so that the digits still fit 256 bits): lengths around 256, 512, 65536
+            L = rng.choice([255, 256, 257, 258, 260, 270, 274, 275, 300, 511, 512, 513, 520, 530, 768, 1024, 65536, 65537, 65540])
+            tail = rng.choice(["", "5", "05", "003", "1", "9"])
+            out.append(rng.choice(["0", "1", "12"]) + "." + "0" * max(0, L - len(tail)) + tail)
+            continue
         if r < 0.2:
             # 17..20 fractional digits
             out.append("%d.%s" % (rng.getrandbits(rng.randrange(1, 100)), "".join(rng.choice("0123456789") for _ in range(rng.choice([17, 18, 18, 19, 19, 20, 25])))))
